@@ -18,8 +18,10 @@ def run(tier: str, seed: int) -> Report:
         "(a column name, renamed in every input table that has it, or a table name; rotating deterministically) is renamed to the internal name, one at a time, "
         "in the pipeline and in the data. Each renamed pipeline is run on Pandas, Polars (when Polars returns for the original) and SQLite on %d non-empty "
         "data set(s) and compared with the SAME back end's result for the original names with the result column renamed (multiset of rows); both must raise "
-        "the same exception type or neither. Internal names already used by the pipeline are skipped. NONTRIVIAL iff at least one back end returned for "
-        "both namings and the results were compared." % ("" if sc["d2_shard"] == 1 else " 1/%d shard rotated by the seed" % sc["d2_shard"], sc["positions"], sc["per_case"])
+        "the same exception type or neither. In addition %d SQL keywords / niladic functions (null, true, current_date, group, order, select, table, index, values, default, check, from, ... "
+        "lower and UPPER case) are tried as user COLUMN names for the columns each pipeline mentions in its operators (single-operator pipelines: every mentioned "
+        "column, both cases; two-operator pipelines: one mentioned column). Internal names already used by the pipeline are skipped. NONTRIVIAL iff at least one back end returned for "
+        "both namings and the results were compared." % ("" if sc["d2_shard"] == 1 else " 1/%d shard rotated by the seed" % sc["d2_shard"], sc["positions"], sc["per_case"], len(c15.keyword_names()))
     )
     rep.bounded_label = "bounded: operator-pair corpus x all harvested internal names x %d renamed input name(s) each, 3 back ends, %d data set(s)" % (sc["positions"], sc["per_case"])
     rep.assumptions = [
